@@ -38,7 +38,9 @@ RULE = ("cases = designs (14 resolution branches: fc|landa_D x dneff|vdneff|kL-o
         "F in [-20,20] or 0, 4 built-in profiles + 3 families of positive smooth callables, 1/2 polarisations, fs in 20..400 GS/s, "
         "centre on/off the frequency grid, filtfilt on/off, n=2^8 (quick) .. 2^12), each with 4 probes of the captured RHS at "
         "random (z,y) incl. z=+-1/2 and 0; route sextuples (same grating through the six routes); incomplete/ill-typed "
-        "specifications; out-of-band centre. non-trivial = a design that ran; distinct by all parameters")
+        "specifications; out-of-band centre; histories: the same grating and input length under 3-4 sampling rates in sequence "
+        "inside one process (and two gratings recurring across cases at different rates), each step checked against the uniform "
+        "closed form for the rate in force. non-trivial = a design that ran; distinct by all parameters")
 PARTIAL = ["accuracy of RK45 (solve_ivp, rtol=1e-3): |H|<=1+5e-3 at every bin, Bragg reflectivity = tanh^2(kL*integral p), uniform "
            "spectrum = sinh^2 g/(cosh^2 g - d^2/k^2) within 1e-2 — oracle on the real code, not theorems (the theorems speak about "
            "exact solutions of the same right-hand side)",
@@ -201,6 +203,31 @@ def gen_cases(rng, tier):
                       "kws": [{"fc": fc, "vdneff": vd, "kL": kL}, {"fc": fc, "vdneff": vd, "L": L}, {"fc": fc, "vdneff": vd, "N": N},
                               {"landa_D": lam_d, "vdneff": vd, "kL": kL}, {"landa_D": lam_d, "vdneff": vd, "L": L},
                               {"landa_D": lam_d, "vdneff": vd, "N": N}]})
+    # the same grating and input length under a sequence of sampling rates inside ONE process (the response is a function
+    # of the grating and of the frequency grid in force, not of what was computed before); uniform profile, unchirped,
+    # vdneff route, so every step is checked against the closed form for the rate in force
+    for _ in range(6 if tier == "quick" else 40):
+        seq = rng.choice([[(4, 25e9), (4, 10e9), (8, 25e9), (4, 25e9)], [(16, 25e9), (2, 10e9), (16, 10e9)],
+                          [(2, 10e9), (8, 50e9), (4, 25e9), (2, 10e9)], [(8, 25e9), (4, 25e9), (16, 25e9)]])
+        vd = 10 ** rng.uniform(-4.6, -3.3)
+        kL = rng.uniform(0.5, 6.0)
+        lam_d = 1550e-9
+        L = kL * lam_d / (math.pi * vd)
+        route = rng.choice(["L", "kL", "fcL"])
+        kw = ({"landa_D": lam_d, "vdneff": vd, "L": L} if route == "L" else {"landa_D": lam_d, "vdneff": vd, "kL": kL}
+              if route == "kL" else {"fc": C0 / lam_d, "vdneff": vd, "L": L})
+        cases.append({"kind": "history", "n": rng.choice([256, 512] if tier == "quick" else [256, 512, 1024]), "npol": 1, "seq": seq,
+                      "kw": kw, "apo": "uniform", "F": 0.0, "filtfilt": rng.random() < 0.5, "seed": rng.getrandbits(32),
+                      "sps": seq[0][0], "R": seq[0][1]})
+    # two gratings that recur across separate cases at different sampling rates (same input length)
+    for g in range(2):
+        vd = 10 ** rng.uniform(-4.3, -3.5)
+        kL = rng.uniform(1.0, 5.0)
+        for sps, R in rng.sample(GVS, 3):
+            c = _design(rng, tier, "ld-vdneff", "L")
+            c.update(n=256, sps=sps, R=R, ongrid=True, m=0, F=0.0, v=1.0, apo="uniform",
+                     kw={"landa_D": 1550e-9, "vdneff": vd, "L": kL * 1550e-9 / (math.pi * vd)})
+            cases.append(c)
     # incomplete / ill-typed specifications
     full = {"fc": _f0(), "landa_D": 1550e-9, "kL": 2.0, "L": 5e-3, "N": 9000, "dneff": 1e-4, "vdneff": 1e-4}
     names = sorted(full)
@@ -321,6 +348,17 @@ def run_impl(case):
                     raise
                 except Exception as e:  # noqa
                     res.update(status="ok", spec=exc_enum(e), detail=repr(e)[:160])
+                return res
+            if kind == "history":
+                steps = []
+                for sps, R in case["seq"]:
+                    gv.clean()
+                    gv(sps=sps, R=R)
+                    xi = optical_signal(a, n_pol=case["npol"])
+                    yi, H = _call_fbg(dev, xi, case["kw"], case["apo"], case["F"], case["filtfilt"])
+                    steps.append({"fs": float(gv.fs), "f0": float(gv.f0), "H": _cl(H),
+                                  "finite": bool(np.all(np.isfinite(H)) and np.all(np.isfinite(yi.signal)))})
+                res.update(status="ok", steps=steps)
                 return res
             if kind == "routes":
                 Hs = []
@@ -543,6 +581,23 @@ def _expected_spec(kw):
     return False
 
 
+def _uniform_reflectivity(n, fs, f0, lam_d, L, vd):
+    f = np.fft.fftshift(np.fft.fftfreq(n)) * fs + f0
+    lam = C0 / f
+    d = 2 * np.pi * NEFF * (1 / lam - 1 / lam_d) * L
+    k = np.pi * vd / lam * L
+    g = np.sqrt((k ** 2 - d ** 2).astype(complex))
+    return (np.sinh(g) ** 2 / (np.cosh(g) ** 2 - d ** 2 / k ** 2)).real
+
+
+def _grating_of(kw):
+    fc = kw["fc"] if "fc" in kw else C0 / kw["landa_D"]
+    lam_d = C0 / fc
+    vd = kw["vdneff"]
+    L = kw["L"] if "L" in kw else (kw["kL"] * lam_d / (math.pi * vd) if "kL" in kw else kw["N"] * lam_d / (2 * NEFF))
+    return lam_d, L, vd
+
+
 def oracle(case, res):
     v = []
     kind = case["kind"]
@@ -571,6 +626,23 @@ def oracle(case, res):
         return [("C16:raises", f"valid design raised {res.get('err')} {res.get('detail')} {tag}")]
     if not res["finite"]:
         return [("C16:non-finite", f"NaN/inf in H or in the output {tag}")]
+    if kind == "history":
+        lam_d, L, vd = _grating_of(case["kw"])
+        for i, st in enumerate(res["steps"]):
+            where = f"step {i} of {[a * b for a, b in case['seq']]} (fs={st['fs']:.3g}) {tag}"
+            if not st["finite"]:
+                v.append(("C16:non-finite", f"NaN/inf at {where}"))
+                continue
+            H = np.array([complex(p, q) for p, q in st["H"]])
+            if np.max(np.abs(H)) > 1 + 5e-3:
+                v.append(("C16:passivity", f"max|H| = {np.max(np.abs(H)):.6f} > 1 at {where}"))
+            refl = _uniform_reflectivity(case["n"], st["fs"], st["f0"], lam_d, L, vd)
+            err = np.abs(np.abs(H) ** 2 - refl)
+            if np.max(err) > 1e-2:
+                kk = int(np.argmax(err))
+                v.append(("C16:uniform-spectrum", f"|H[{kk}]|^2 = {abs(H[kk]) ** 2:.6f} vs sinh^2 g/(cosh^2 g - d^2/k^2) = {refl[kk]:.6f} "
+                                                  f"for the frequency grid in force at {where}"))
+        return v
     if kind == "routes":
         if res["maxabs"] > 1 + 5e-3:
             v.append(("C16:passivity", f"max|H| = {res['maxabs']:.6f} > 1 {tag}"))
@@ -639,10 +711,12 @@ def features(case, res):
         f.append("spec->" + str(res.get("spec")))
     if case["kind"] == "routes":
         f.append("apo=" + _apo_name(case["apo"]))
+    if case["kind"] == "history":
+        f.append(f"history-steps={len(case['seq'])}")
     return f
 
 
 def nontrivial_key(case, res):
-    if res.get("status") != "ok" or case["kind"] not in ("design", "routes"):
+    if res.get("status") != "ok" or case["kind"] not in ("design", "routes", "history"):
         return None
     return (case["kind"], case["n"], case["sps"], case["R"], str(case.get("kw") or case.get("kws")), str(case["apo"]), case["F"], case["seed"])
